@@ -286,6 +286,11 @@ def directed() -> List[Dict[str, Any]]:
     D.append({"history": [A("A1", [None, 4, None]), A("A2", [7, 7, 7, 7]), F, RA("A1"), RA("A2")], "meas": [0]})
     # ... with one value in most places, an undefined entry among them, a different value somewhere
     D.append({"history": [A("A1", [1, 1, None, 1, 0]), A("A2", [None, 5, 5]), A("A3", [2, None, 2, 2]), F, RA("A1"), RA("A2"), RA("A3")], "meas": [0]})
+    # a register the application asked for and keeps: used as an array index in later subroutines that need scratch registers
+    D.append({"history": [A("A1", [10, 20, 30, 40]), {"s": "hold", "h": "G1", "v": 2}, F,
+                          {"s": "add", "t": {"k": "fut", "a": "A1", "i": {"k": "reg", "h": "G1"}}, "o": c(5), "mod": -1}, F,
+                          {"s": "loop", "start": 0, "stop": 2, "step": 1, "form": "ctx", "body": [{"s": "add", "t": {"k": "fut", "a": "A1", "i": {"k": "reg", "h": "G1"}}, "o": lv(1), "mod": -1}]}, F,
+                          RA("A1")], "meas": [0]})
     # in-place measurement keeps the qubit
     D.append({"history": [A("A1", [0, 0]), {"s": "qubit", "h": "Q1"}, {"s": "gate", "g": "x", "qs": ["Q1"]},
                           {"s": "meas", "q": "Q1", "inplace": True, "into": fut("A1", c(0))}, {"s": "gate", "g": "h", "qs": ["Q1"]},
